@@ -269,6 +269,21 @@ func genC08(seed int64, tier string) *Scenario {
 			open[n], exists[n] = true, true
 		}
 	}
+	if r.Intn(8) == 0 && !faulted {
+		// recipe: edits that are thrown away.  X defines globals and is edited (uses added, lines
+		// shifted, a doc comment changed) but closed without saving; Y, still open, asks about the
+		// symbols X defines — the answers must come from X's saved text again
+		x, y := names[r.Intn(len(names))], names[r.Intn(len(names))]
+		if x != y && !open[x] && !open[y] {
+			sc.Ops = append(sc.Ops,
+				Op{Kind: "fswrite", Path: x, Data: Bytes("-- the saved documentation\nfunction fA(a, b)\n  return a\nend\ngA = 1\n")}, Op{Kind: "deliver"},
+				Op{Kind: "fswrite", Path: y, Data: Bytes("print(gA)\nfA(1, 2)\nlocal y = gA\nprint(y)\n")}, Op{Kind: "deliver"},
+				Op{Kind: "open", Path: y}, Op{Kind: "open", Path: x},
+				Op{Kind: "change", Path: x, Edits: []Edit{{Full: true, Text: "print(gA, gA)\n\n-- DISCARDED words\nfunction fA(a, b, c)\n  return gA\nend\ngA = 2\nprint(fA(1))\n"}}},
+				Op{Kind: "close", Path: x}, Op{Kind: "check"})
+			open[y], exists[x], exists[y] = true, true, true
+		}
+	}
 	// make the end clean: stop faults, deliver everything, save or close dirty buffers, and (after
 	// faults) let the world touch every file once more, which is what the next save would do.
 	sc.Ops = append(sc.Ops, Op{Kind: "clearfaults"}, Op{Kind: "deliver"})
